@@ -7,7 +7,7 @@ PROP = {
     "manifest": dict(
         text="B1 the real LowMarkBufReader::{fill_buf,consume,read,seek} as inductive steps from an ARBITRARY reader state (pos <= cap <= capacity; cache line scaled to 8; (low mark, capacity) instances (1,9), (4,15), (8,16), (10,18) - below, at and above the cache line; source up to 3 cache "
              "lines) over a scripted source whose every read returns a solver-chosen count (all short-read schedules): bytes handed out are exactly the source's (ghost watch cell), position advances by exactly the amount "
-             "consumed, >= low-mark bytes available or source exhausted, the source is never read into an empty slice (no early EOF). Because the start state is arbitrary, every interleaving of fill/consume/read/seek is covered. "
+             "consumed, >= low-mark bytes available or source exhausted, the source is never read into an empty slice (no early EOF), and every position an in-buffer seek ACCEPTS (also backwards, also after a compaction) delivers the source's byte (B1e). Because the start state is arbitrary, every interleaving of fill/consume/read/seek is covered. "
              "B2 both parsers give the same verdict on two views of any buffer that both contain the first frame + 4 bytes. B3 the low mark passed at the call sites covers the largest message + 4. "
              "Together with C01-L3 this gives chunking- and position-independence for streams of any length (paper composition). CUT: CACHE_LINE_SIZE scaled 4096 -> 8 in the scratch copy (CBMC needs > 30 GB for the real value).",
         note=TB + "constant scaling cut (listed); SeekFrom::End and I/O errors of the source outside; B2 buffers <= 36 B.",
